@@ -121,7 +121,7 @@ def trigger_unbind_during_dispatch(ev: int, n: int, who: int, target_next: bool)
 
 @harness(
     "C26",
-    timeout=(120, 600),
+    timeout=(300, 600),
     shards=[{"lo": 0, "hi": 6}, {"lo": 6, "hi": 12}, {"lo": 12, "hi": 17}],
     functions=["events:trigger", "events:_add_handler", "events:Event.__init__", "association:Association.bind",
                "association:Association.get_handlers"],
